@@ -566,12 +566,21 @@ def run(tier):
     from . import c14, c12, options_table
     sub14 = Check('C14', 'proof', tier, [], [])
     chk.guard(c14.rule_r6, sub14, prog, options_table.registry(prog))
+    # only writes outside the option actions / detection: how the command
+    # line maps to the enabled set is C14's business, not C02's
+    Check.restrict(sub14, lambda wh, what: not wh.startswith(
+        ('mutators.', 'mutators', 'options', 'argparsemod'))
+        or wh.startswith('mutators_'))
     chk.adopt('C02.R7', 'mutator toggles are written only by the option '
               'actions and by automatic theory detection: a strategy that '
               'switches a mutator off leaves the following strategy without '
               'it (shared with C14.R6)', sub14)
     sub12 = Check('C12', 'other', tier, [], [])
     chk.guard(c12.rule_r5, sub12, prog)
+    # completeness of the walk, not its order
+    Check.restrict(sub12, lambda wh, what: '[order]' not in what
+                   and 'reversed' not in what
+                   and wh.startswith(('nodes.dfs', 'nodes.bfs')))
     chk.adopt('C02.R8', 'the traversals that enumerate the nodes offered to '
               'the mutators visit every node exactly once (shared with '
               'C12.R5)', sub12)
